@@ -24,6 +24,7 @@ const (
 	OutFail
 	OutHang     // never answers; returns when the context ends
 	OutNotFound // the service reports ErrNotFound
+	OutTimeout  // the client's own per-attempt timeout fires: an error wrapping context.DeadlineExceeded although the caller's context is alive
 )
 
 // Outcome is the script entry for the k-th request of one name.
@@ -35,7 +36,7 @@ type Outcome struct {
 }
 
 func (o Outcome) String() string {
-	k := [...]string{"ok", "fail", "hang", "notfound"}[o.Kind]
+	k := [...]string{"ok", "fail", "hang", "notfound", "timeout"}[o.Kind]
 	if o.Latency > 0 {
 		k += "+" + o.Latency.String()
 	}
@@ -90,11 +91,16 @@ type Svc struct {
 	inflight map[string]int
 	MaxInfl  map[string]int
 	dead     bool          // every request fails at once (dead service)
+	torndown bool          // Kill was called: the run is over
+	lateReqs int           // requests received after Kill
 	killed   chan struct{} // closed at teardown
 	NoPark   bool          // answer without parking (cadence scenario)
 	Quiet    bool          // free-running mode: no parks, no kernel calls
 	MaxHang  time.Duration // >0: a hanging request fails after this long (transport timeout)
-	nonce    string
+	// OpaqueCtxErr: a request cut short by the caller's context reports an
+	// error that does not wrap the context's error
+	OpaqueCtxErr bool
+	nonce        string
 }
 
 func newSvc(w *World) *Svc {
@@ -250,6 +256,7 @@ func (v *Svc) Kill() {
 	v.mu.Lock()
 	if !v.dead {
 		v.dead = true
+		v.torndown = true
 		close(v.killed)
 	}
 	v.mu.Unlock()
@@ -287,6 +294,16 @@ func (v *Svc) request(ctx context.Context, name string, cond bool, old uint32) (
 		v.MaxInfl[name] = v.inflight[name]
 	}
 	dead := v.dead
+	if v.torndown {
+		v.lateReqs++
+		if v.lateReqs > 300 {
+			// A caller that keeps asking although every request fails and every
+			// context is cancelled never ends: park it for good, so that the
+			// teardown can (the run reports the task as stuck).
+			v.mu.Unlock()
+			select {}
+		}
+	}
 	nopark := v.NoPark
 	v.mu.Unlock()
 	w.S.Log("svc request %s cond=%v old=%d #%d %s", strconv.Quote(name), cond, old, k, out)
@@ -325,7 +342,7 @@ func (v *Svc) request(ctx context.Context, name string, cond bool, old uint32) (
 		close(stop)
 		if !ok {
 			if ctx.Err() != nil {
-				return finish(nil, ctx.Err())
+				return finish(nil, v.ctxErr(ctx))
 			}
 			return finish(nil, errUnavailable)
 		}
@@ -337,7 +354,7 @@ func (v *Svc) request(ctx context.Context, name string, cond bool, old uint32) (
 		case <-tm.C:
 		case <-ctx.Done():
 			tm.Stop()
-			return finish(nil, ctx.Err())
+			return finish(nil, v.ctxErr(ctx))
 		case <-v.killed:
 			tm.Stop()
 			return finish(nil, errUnavailable)
@@ -357,7 +374,7 @@ func (v *Svc) request(ctx context.Context, name string, cond bool, old uint32) (
 		}
 		select {
 		case <-ctx.Done():
-			return finish(nil, ctx.Err())
+			return finish(nil, v.ctxErr(ctx))
 		case <-v.killed:
 			return finish(nil, errUnavailable)
 		case <-tmo:
@@ -366,9 +383,12 @@ func (v *Svc) request(ctx context.Context, name string, cond bool, old uint32) (
 	case OutNotFound:
 		w.S.Fault("svc-notfound")
 		return finish(nil, api.ErrNotFound)
+	case OutTimeout:
+		w.S.Fault("svc-attempt-timeout")
+		return finish(nil, fmt.Errorf("get %q: %w (Client.Timeout exceeded while awaiting headers)", name, context.DeadlineExceeded))
 	}
-	if err := ctx.Err(); err != nil {
-		return finish(nil, err)
+	if ctx.Err() != nil {
+		return finish(nil, v.ctxErr(ctx))
 	}
 	v.mu.Lock()
 	s := v.secrets[name]
@@ -391,6 +411,17 @@ func (v *Svc) request(ctx context.Context, name string, cond bool, old uint32) (
 	}
 	return finish(&api.SecretValue{Value: append([]byte{}, val...), Version: api.SecretVersion(ver)}, nil)
 }
+
+// ctxErr is what a request reports when the caller's context ended: the
+// context's error, or - a client that does not wrap it - an opaque one.
+func (v *Svc) ctxErr(ctx context.Context) error {
+	if v.OpaqueCtxErr {
+		return errAborted
+	}
+	return ctx.Err()
+}
+
+var errAborted = errors.New("sim: request aborted")
 
 // quietRequest answers at once without touching the kernel (free-running
 // race-detector runs: harness mutexes would add happens-before edges).
